@@ -290,3 +290,30 @@ for p in ("C02", "C06", "C07", "C09", "C16", "C04"):
     PROPERTY_META.setdefault(p, {"assumptions": [], "trusted_base": []})
     PROPERTY_META[p].setdefault("assumptions", [])
     PROPERTY_META[p]["assumptions"] += _openssl
+
+# --------------------------------------------------------------------------
+# C13: tconnect.c (+ real ut_established) inductive steps; timer_mgr.c (TIMER contract)
+# --------------------------------------------------------------------------
+ob("tconnect.track_step", "tconnect/tconnect_h.c", ["-DOP_TRACK_STEP", "-DNIPS=3"], ["C13", "C05", "C06", "C08", "C04", "C11"], unwind=5,
+   desc="one track_get_connected_fd() from an arbitrary valid track (state, address index, 3 addresses of any family mix, v4/v6/both sockets, with/without local address): order, at-most-once, errno of the last failure, timeouts, registrations and timers; kernel outcome per attempt symbolic")
+ob("tconnect.track_step.n4", "tconnect/tconnect_h.c", ["-DOP_TRACK_STEP", "-DNIPS=4"], ["C13", "C05", "C06", "C08", "C04", "C11"], unwind=6, tier="thorough", timeout=2400,
+   desc="same with 4 addresses")
+ob("tconnect.track_step.failopts", "tconnect/tconnect_h.c", ["-DOP_TRACK_STEP", "-DNIPS=2", "-DFAIL_OPTS", "-DFAIL_BIND"], ["C13", "C11"], unwind=4, tier="thorough", timeout=2400,
+   desc="track step with failing setsockopt/bind (2 addresses: the three recursive call sites make symbolic execution exponential in the list length)")
+ob("tconnect.get_fd", "tconnect/tconnect_h.c", ["-DOP_GET_FD", "-DNIPS=3"], ["C13", "C08"], unwind=5,
+   desc="tconnect_get_connected_fd over one or two arbitrary tracks: first connected wins and is disowned, EAGAIN while any track is in progress, else the last errno")
+for alg, an in ((1, "single"), (2, "sequential"), (3, "happy_eyeballs")):
+    ob("tconnect.connect." + an, "tconnect/tconnect_h.c", ["-DOP_CONNECT", "-DALG=%d" % alg, "-DNIPS=3"], ["C13", "C11"], unwind=5,
+       desc="tconnect_connect with algorithm '%s' on 3 addresses of any family mix: track layout, IPv4 head-start delay, list order kept, local address copied and used by attempts made after the call returned" % an)
+ob("tconnect.create", "tconnect/tconnect_h.c", ["-DOP_CREATE"], ["C08", "C05"], unwind=5, desc="tconnect_create/destroy with socket() and timerfd_create() failing at will: NULL and nothing leaked; both sockets closed once")
+for op, d in (("SCHEDULE", "timer_mgr_schedule from an arbitrary manager of <= 3 timers: timerfd armed at the earliest expiry"),
+              ("CANCEL", "timer_mgr_cancel/ack: exactly that timer removed, timerfd re-armed at the earliest remaining expiry or disarmed"),
+              ("EXPIRED", "timer_mgr_has_expired <=> now > expiry"), ("LIFE", "timer_mgr_create/destroy with timerfd_create failing at will")):
+    ob("timer." + op.lower(), "timer/timer_h.c", ["-DOP_" + op], ["C13", "C04"] + (["C08"] if op == "LIFE" else []) + (["C16"] if op == "CANCEL" else []), unwind=6,
+       flags=(["--memory-leak-check"] if op == "LIFE" else []), desc=d)
+PROPERTY_META.setdefault("C13", {"assumptions": [], "trusted_base": []})
+PROPERTY_META["C13"]["assumptions"] = PROPERTY_META["C13"].get("assumptions", []) + [
+    "tconnect over KERNEL-FD stubs (connect: success / EINPROGRESS / ECONNREFUSED, ETIMEDOUT, EHOSTUNREACH, ENETUNREACH...; poll+SO_ERROR decide a pending attempt), XPOLL and TIMER contract mocks; a timer scheduled in the step under test has not expired yet",
+    "setsockopt/bind failures only in the 2-address obligation (recursion with three call sites is exponential for CBMC)",
+    "timer_mgr over a clock stub (any non-negative time) and a timerfd stub; the double->timespec conversion (libm) is outside the claim",
+    "real-time bounds are reduced to 'a live timer of the configured length guards every pending attempt'"]
